@@ -445,8 +445,18 @@ def c13o(ctx):
     and the tile is fetched again on every request after the threshold)"""
     fn = ctx.fn('mapproxy/cache/file.py:FileCache._store_single_color_tile')
     g = fn.cfg
-    links = [n for n, x in g.find(lambda x: is_call(x, 'os.link', 'os.symlink'))]
-    if len(links) < 2:
+    fdefs = Defs(fn.node)
+
+    def is_link(x):
+        if is_call(x, 'os.link', 'os.symlink'):
+            return True
+        # the function picked into a local first (`make = os.link if hard else os.symlink; make(target, loc)`)
+        if isinstance(x, ast.Call) and isinstance(x.func, ast.Name):
+            ds = fdefs.of(x.func.id)
+            return bool(ds) and all(sel is None and unparse(v) in ('os.link', 'os.symlink') for v, sel in ds)
+        return False
+    links = [n for n, x in g.find(is_link)]
+    if len(links) < 1:
         raise Undecided('_store_single_color_tile: %d link calls found' % len(links))
     rets = g.find_stmts(lambda s: isinstance(s, ast.Return))
     # every explicit return comes after one of the link calls (on each path to it a link call was made)
